@@ -200,14 +200,14 @@ pub fn check_mode(mode: Mode) -> impl Fn(&String) -> CheckResult + Sync {
 // ---------------------------------------------------------------------------------------------
 // generators
 
-pub const ALPHABET: [&str; 29] = ["A", "K", "Q", "J", "T", "9", "8", "7", "6", "5", "4", "3", "2", "s", "h", "d", "c", "o", "+", "-", ":", ".", ",", "0", "1", " ", "é", "€", "😀"];
+pub const ALPHABET: [&str; 32] = ["A", "K", "Q", "J", "T", "9", "8", "7", "6", "5", "4", "3", "2", "s", "h", "d", "c", "o", "+", "-", ":", ".", ",", "0", "1", " ", "é", "€", "😀", "a", "k", "S"];
 
 /// i-th string of length `len` over the alphabet
 pub fn short_string(len: u32, mut i: u64) -> String {
     let mut s = String::new();
     for _ in 0..len {
-        s.push_str(ALPHABET[(i % 29) as usize]);
-        i /= 29;
+        s.push_str(ALPHABET[(i % 32) as usize]);
+        i /= 32;
     }
     s
 }
@@ -249,6 +249,31 @@ pub fn shape_strings(with_weight_for_all: bool) -> Vec<String> {
             push(format!("{}{}", cname(a), cname(b)), true);
         }
     }
+    // the short shapes again with every mix of upper- and lower-case letters (the notation is
+    // case-sensitive: 'Aas' must not become a token of two aces)
+    let cased = |c: char| -> Vec<char> { if c.is_ascii_alphabetic() { vec![c, if c.is_ascii_uppercase() { c.to_ascii_lowercase() } else { c.to_ascii_uppercase() }] } else { vec![c] } };
+    for a in r {
+        for b in r {
+            for x in ['s', 'o', '+', ' '] {
+                for ca in cased(a) {
+                    for cb in cased(b) {
+                        for cx in cased(x) {
+                            if ca == a && cb == b && cx == x {
+                                continue;
+                            }
+                            let base: String = [ca, cb, cx].iter().filter(|c| **c != ' ').collect();
+                            push(base.clone(), false);
+                            if x != '+' && x != ' ' {
+                                push(format!("{}+", base), false);
+                            }
+                        }
+                    }
+                }
+            }
+        }
+    }
+    v.sort();
+    v.dedup();
     v
 }
 
@@ -434,7 +459,7 @@ pub fn run(ctx: &mut Ctx, mode: Mode) {
     let tier = ctx.tier;
     match mode {
         Mode::Total => {
-            ctx.rule = "strings: (1) every string of length 0-3 (thorough 0-4) over the 29-symbol alphabet ranks + 'shdco+-:.,01' + space + é (2 bytes) + € (3) + 😀 (4); (2) every string matching a token shape with arbitrary ranks - XY, XY+, XYk, XYk+, XY-ZW, XYk-ZWk', all 52x52 card-pair texts incl. both cards equal - without and with ':0.5'; every single and double substitution of a notation character by a Unicode look-alike of its class (decimal digits of other scripts, full-width forms, Kelvin sign, long s, dashes, ...) in valid texts of every shape and weight form; (3) proptest: valid notation with one or two characters inserted/replaced/deleted at any offset (multi-byte, NUL, combining, notation characters), comma lists mixing valid tokens with junk and the degenerate spans '22-AA','KAs+','2As+', arbitrary Unicode, weight literals, over-long inputs (up to 10^5 characters, 10^4 commas, 2,000 tokens). Oracle under catch_unwind: parse as Rank, Suit, Card, CardPair, HandRangeToken, HandRange returns; every Ok value is formatted, expanded, decomposed (rank_pairs, orphan_card_pairs) and drained through FlopExhaustiveEvaluator (alone on the first positions and to the very end - the whole enumeration for ranges of <= 24 combos, the last turn rows otherwise -, beside a fixed player, twice, at seats 0 and 2 around a disjoint player). Non-trivial = accepted by some parser, or contains a multi-byte character, or has a token shape; distinct by string.".into();
+            ctx.rule = "strings: (1) every string of length 0-3 (thorough 0-4) over the 32-symbol alphabet ranks + 'shdco+-:.,01' + space + é (2 bytes) + € (3) + 😀 (4) + 'a','k','S' (wrong-case letters); (2) every string matching a token shape with arbitrary ranks - XY, XY+, XYk, XYk+, XY-ZW, XYk-ZWk', all 52x52 card-pair texts incl. both cards equal - without and with ':0.5', and the short shapes in every mix of upper- and lower-case letters; every single and double substitution of a notation character by a Unicode look-alike of its class (decimal digits of other scripts, full-width forms, Kelvin sign, long s, dashes, ...) in valid texts of every shape and weight form; (3) proptest: valid notation with one or two characters inserted/replaced/deleted at any offset (multi-byte, NUL, combining, notation characters), comma lists mixing valid tokens with junk and the degenerate spans '22-AA','KAs+','2As+', arbitrary Unicode, weight literals, over-long inputs (up to 10^5 characters, 10^4 commas, 2,000 tokens). Oracle under catch_unwind: parse as Rank, Suit, Card, CardPair, HandRangeToken, HandRange returns; every Ok value is formatted, expanded, decomposed (rank_pairs, orphan_card_pairs) and drained through FlopExhaustiveEvaluator (alone on the first positions and to the very end - the whole enumeration for ranges of <= 24 combos, the last turn rows otherwise -, beside a fixed player, twice, at seats 0 and 2 around a disjoint player). Non-trivial = accepted by some parser, or contains a multi-byte character, or has a token shape; distinct by string.".into();
         }
         Mode::Content => {
             ctx.rule = "same string generators as C09 plus every weight literal [01](.d{1,3})? on one token of each shape and generated literals (1.0..01, 0.99.., 40-digit fractions, exponents, NaN/inf). Oracle: every combo of every Ok card pair / token / range has two different cards and a weight w with 0 <= w <= 1; evaluator runs over the parsed ranges (alone, beside a fixed player, the range twice) yield only showdowns with probability in [0,1] and 5+2n pairwise distinct cards. Panics are C09's subject and skipped here. Non-trivial = the string parses to a card pair, token or non-empty range; distinct by string.".into();
@@ -447,7 +472,7 @@ pub fn run(ctx: &mut Ctx, mode: Mode) {
     let maxlen = tier.pick(3u32, 4u32);
     let mut offs = vec![0u64];
     for l in 0..=maxlen {
-        offs.push(offs.last().unwrap() + 29u64.pow(l));
+        offs.push(offs.last().unwrap() + 32u64.pow(l));
     }
     let n = *offs.last().unwrap();
     ctx.run_enum_brief(
@@ -487,7 +512,7 @@ pub fn run(ctx: &mut Ctx, mode: Mode) {
     let c = tier.pick(96, 1_500);
     ctx.run_random_brief(StreamCfg::new("over_long", CLASSES, c).shrink(60), long_strategy, &f, brief);
     ctx.require_class("over_long", "longer_than_1000_bytes", c / 2);
-    ctx.extra.insert("exhaustive_over".into(), json!(format!("all strings of length <= {} over the 29-symbol alphabet; all token-shape strings with arbitrary ranks", maxlen)));
+    ctx.extra.insert("exhaustive_over".into(), json!(format!("all strings of length <= {} over the 32-symbol alphabet; all token-shape strings with arbitrary ranks", maxlen)));
     if tier == Tier::Thorough && !ctx.failed() {
         crate::fuzzrun::campaign(ctx, "fz_parse", 12_000, 16, 96);
     }
